@@ -1106,7 +1106,7 @@ theorem loop_sub {filled R : Nat} (g : Geo d.length bs filled) (hroot : nodeOf 0
     have hR := fun rest stk out => leaf_sub hI fl sel (j := 2 * k + 1) (a := midOf k bs)
       (sz := min (toBytes (endOf k bs)) d.length - toBytes (midOf k bs))
       (by rw [hm]; exact right_start rfl) hmN hrr (by unfold toBytes; rw [← he]) rest stk out
-    rw [← hm] at hL
+    rw [← hm, Nat.min_eq_left (Nat.le_of_lt hmN)] at hL
     rw [← he] at hR
     have := node_run hI fl sel (k := k) (M := bs) (Nat.le_refl _) (by omega) hmN
       (nodeOf k 0 == nodeOf 0 R) hne hr _ _ (Ranges.splitInner rs (startOf k bs) (midOf k bs)).1
@@ -1141,5 +1141,167 @@ theorem loop_sub {filled R : Nat} (g : Geo d.length bs filled) (hroot : nodeOf 0
     exact this
 
 end loop
+
+/-! ### the whole encoder -/
+
+/-- above the height that covers the blob the items of the leftmost interval do not change -/
+theorem bytesI_top {hf : HashFns H} {d : List UInt8} {n bs : Nat} {sel : Nat → Bool} (hn : 0 < n) :
+    ∀ (h' h : Nat), n ≤ 2 ^ h → h ≤ h' →
+      bytesI hf d n bs sel h' 0 = bytesI hf d n bs sel h 0 := by
+  intro h'
+  induction h' with
+  | zero => intro h _ hh; have : h = 0 := by omega
+            subst this; rfl
+  | succ h' ih =>
+    intro h hcov hh
+    by_cases he : h = h' + 1
+    · subst he; rfl
+    · have hle : 2 ^ h ≤ 2 ^ h' := Nat.pow_le_pow_right (by decide) (by omega)
+      rw [bytesI_succ_skip (a := 0) (by simp) hn (by omega)]
+      exact ih h hcov (by omega)
+
+theorem encode_eq_bytesI (hf : HashFns H) (d : List UInt8) (bs : Nat) (q : Ranges) :
+    Spec.encode hf d bs q =
+      bytesI hf d (nChunks d.length) bs (Spec.selected d.length q)
+        (log2ceil 64 (nChunks d.length)) 0 := rfl
+
+/-- nothing selected: the honest encoding is empty -/
+theorem encode_nil_of_not_selected (hf : HashFns H) (d : List UInt8) (bs : Nat) {q : Ranges}
+    (h : ∀ c, Spec.selected d.length q c = false) : Spec.encode hf d bs q = [] := by
+  rw [encode_eq_bytesI]
+  exact bytesI_none (a := 0) (by simp) (Ranges.nChunks_pos _)
+    (anySel_eq_false.2 fun c _ _ => h c)
+
+/-- **2. the validating encoder emits the honest encoding** (both flavours, all four stored
+outboard kinds), and every hash comparison succeeds -/
+theorem validated_spec {hf : HashFns H} [BEq H] [LawfulBEq H] {d : List UInt8} {bs : Nat}
+    {st : Store H} (hI : Intact hf d bs st) (hroot : st.root = Spec.root hf d) (fl : Flavour)
+    {q : Ranges} (hwf : Ranges.WF q = true) :
+    encodeRangesValidated hf fl d st q = ⟨Spec.encode hf d bs q, .ok⟩ := by
+  have hn := Ranges.nChunks_pos d.length
+  obtain ⟨hR63, hrootE, hrootlt⟩ := rootLevel_spec d.length bs hI.hs
+  have g := shifted_geo d.length bs hI.hs hI.hbs
+  have hcov := rootLevel_covers d.length bs hI.hs
+  have hplan := C15.pre_refines (size := d.length) (bs := bs) (ml := 0)
+    (q := Ranges.truncate q d.length) hI.hs hI.hbs
+  unfold encodeRangesValidated
+  rw [hI.tree]
+  simp only
+  rw [hplan, plan_eq _ _ _ _ hI.hs]
+  by_cases htr : Ranges.truncate q d.length = []
+  · rw [htr, planPre_nil, encode_nil_of_not_selected hf d bs
+      ((C14.truncate_empty_iff d.length hwf).1 htr)]
+    split <;> simp [encodeValidatedLoop]
+  · have hq : q.isEmpty = false := by
+      apply isEmpty_eq_false
+      rintro rfl
+      exact htr rfl
+    simp only [hq, Bool.and_false, Bool.false_eq_true, if_false]
+    have hrepr : Repr d.length (Spec.selected d.length q) (Ranges.truncate q d.length)
+        (startOf 0 (rootLevel ⟨d.length, bs⟩ + bs)) (endOf 0 (rootLevel ⟨d.length, bs⟩ + bs)) := by
+      rw [startOf_zero_left]; exact repr_root hwf hcov
+    have := loop_sub hI fl (Spec.selected d.length q) g hrootlt (rootLevel ⟨d.length, bs⟩) 0
+      (Ranges.truncate q d.length) hrepr (Nat.le_refl _) (fun _ => rfl)
+      (by rw [startOf_zero_left]; exact hn) [] [] []
+    rw [List.append_nil, isEmpty_eq_false htr, startOf_zero_left, Nat.min_eq_right hcov] at this
+    simp only [Bool.false_eq_true, if_false, beq_self_eq_true, List.append_nil,
+      List.nil_append] at this
+    have hr : st.root = cv hf d 0 (nChunks d.length) true := hroot
+    rw [hr, this, C05.loop_nil, encode_eq_bytesI]
+    congr 1
+    have h1 : nChunks d.length ≤ 2 ^ (rootLevel ⟨d.length, bs⟩ + bs + 1) := by
+      have e : endOf 0 (rootLevel ⟨d.length, bs⟩ + bs) = 2 ^ (rootLevel ⟨d.length, bs⟩ + bs + 1) := by
+        unfold endOf; omega
+      omega
+    have h2 := Offsets.log2ceil_spec 64 (nChunks d.length) (Offsets.nChunks_le d.length hI.hs)
+    rcases Nat.le_total (rootLevel ⟨d.length, bs⟩ + bs + 1) (log2ceil 64 (nChunks d.length))
+      with hle | hle
+    · exact (bytesI_top hn _ _ h1 hle).symm
+    · exact bytesI_top hn _ _ h2 hle
+
+/-! ### the range sets the plan attaches to its leaves satisfy `Repr` -/
+
+/-- every leaf of the recursive plan (for `min_full_level = 0`) is one chunk group `[s, s + 2^bs)`
+starting inside the blob, reads exactly its bytes, and the range set attached to it represents
+the selection on the group in the sense of `Repr` -/
+theorem plan_leaf_repr {size bs filled root : Nat} (g : Geo size bs filled) (sel : Nat → Bool)
+    (L k : Nat) (rs : Ranges) :
+    Repr size sel rs (startOf k (L + bs)) (endOf k (L + bs)) →
+    startOf k (L + bs) < nChunks size →
+    ∀ s z r x, Chunk.leaf s z r x ∈ planPre size bs 0 filled root L k rs →
+      ∃ j, s = j * 2 ^ bs ∧ s < nChunks size ∧
+        z = min ((s + 2 ^ bs) * 1024) size - s * 1024 ∧ Repr size sel x s (s + 2 ^ bs) := by
+  refine planPre_induct (size := size) (bs := bs) (ml := 0) (filled := filled) (root := root)
+    (P := fun L k rs p =>
+      Repr size sel rs (startOf k (L + bs)) (endOf k (L + bs)) →
+      startOf k (L + bs) < nChunks size →
+      ∀ s z r x, Chunk.leaf s z r x ∈ p →
+        ∃ j, s = j * 2 ^ bs ∧ s < nChunks size ∧
+          z = min ((s + 2 ^ bs) * 1024) size - s * 1024 ∧ Repr size sel x s (s + 2 ^ bs))
+    ?_ ?_ ?_ ?_ ?_ ?_ ?_ L k rs
+  · intro L k _ _ s z r x hm; cases hm
+  · intro k rs _ _ _ _ s z r x hm; cases hm
+  · -- skip
+    intro L k rs _ hge ih hr han s z r x hm
+    have hmN := g.skip_mid_ge hge
+    have hme := midOf_lt_endOf k (L + 1 + bs)
+    exact ih (by rw [child_ls, child_le]; exact repr_skip hr hmN (by omega))
+      (by rw [child_ls]; exact han) s z r x hm
+  · intro L k rs _ _ hq
+    have := queryLeaf_lt hq
+    omega
+  · -- half leaf
+    intro k rs _ _ _ hh hr han s z r x hm
+    simp only [Nat.zero_add] at hr han
+    have hm' := List.mem_singleton.1 hm
+    simp only [nodeLeaf, Chunk.leaf.injEq, Nat.zero_add] at hm'
+    obtain ⟨rfl, rfl, -, rfl⟩ := hm'
+    have hsm := startOf_lt_midOf k bs
+    have hmid : midOf k bs = startOf k bs + 2 ^ bs := midOf_eq_start_add k bs
+    have he : endOf k bs = midOf k bs + 2 ^ bs := endOf_eq_mid_add k bs
+    have hmN := nChunks_le_of_le_toBytes (by omega) hh
+    refine ⟨2 * k, left_start rfl, han, ?_, by rw [← hmid]; exact repr_skip hr hmN (by omega)⟩
+    unfold toBytes at hh ⊢
+    have : (startOf k bs + 2 ^ bs) * 1024 = startOf k bs * 1024 + 2 ^ bs * 1024 := Nat.add_mul _ _ _
+    omega
+  · -- chunk group
+    intro k rs _ _ _ hh hr han s z r x hm
+    simp only [Nat.zero_add] at hr han
+    have hmN : midOf k bs < nChunks size := lt_nChunks_of_toBytes_lt hh
+    have hsm := startOf_lt_midOf k bs
+    have hmid : midOf k bs = startOf k bs + 2 ^ bs := midOf_eq_start_add k bs
+    have he : endOf k bs = midOf k bs + 2 ^ bs := endOf_eq_mid_add k bs
+    rcases mem_group hm with ⟨rfl, rfl, rfl, -⟩ | ⟨rfl, rfl, rfl, -⟩
+    · refine ⟨2 * k, left_start rfl, han, ?_,
+        by rw [← hmid]; exact repr_left hr hsm (by omega) hmN⟩
+      unfold toBytes at hh ⊢
+      rw [← hmid]; omega
+    · refine ⟨2 * k + 1, by rw [hmid]; exact right_start rfl, hmN, ?_,
+        by rw [← he]; exact repr_right hr (Nat.le_of_lt hsm) (by omega)⟩
+      unfold toBytes
+      rw [← he]
+  · -- inner node
+    intro L k rs _ hlt _ ihl ihr hr han s z r x hm
+    have hmN := g.mid_lt_nChunks hlt
+    have hsm := startOf_lt_midOf k (L + 1 + bs)
+    have hme := midOf_lt_endOf k (L + 1 + bs)
+    rcases mem_inner rfl hm with hm | hm
+    · exact ihl (by rw [child_ls, child_le]; exact repr_left hr hsm (by omega) hmN)
+        (by rw [child_ls]; exact han) s z r x hm
+    · exact ihr (by rw [child_rs, child_re]; exact repr_right hr (Nat.le_of_lt hsm) (by omega))
+        (by rw [child_rs]; exact hmN) s z r x hm
+
+/-- … for the public plan of the truncated query -/
+theorem plan_leaf_repr_top {size bs : Nat} (hs : size ≤ 2 ^ 63) (hbs : bs ≤ 10) {q : Ranges}
+    (hwf : Ranges.WF q = true) {s z : Nat} {r : Bool} {x : Ranges}
+    (hm : Chunk.leaf s z r x ∈ plan ⟨size, bs⟩ 0 (Ranges.truncate q size)) :
+    ∃ j, s = j * 2 ^ bs ∧ s < nChunks size ∧
+      z = min ((s + 2 ^ bs) * 1024) size - s * 1024 ∧
+      Repr size (Spec.selected size q) x s (s + 2 ^ bs) := by
+  have hcov := rootLevel_covers size bs hs
+  exact plan_leaf_repr (shifted_geo size bs hs hbs) (Spec.selected size q)
+    (rootLevel ⟨size, bs⟩) 0 (Ranges.truncate q size)
+    (by rw [startOf_zero_left]; exact repr_root hwf hcov)
+    (by rw [startOf_zero_left]; exact Ranges.nChunks_pos size) s z r x hm
 
 end Bao.EncodeSpec
